@@ -15,24 +15,16 @@ INV = ["InvLayout", "InvFits", "InvShape", "InvRoundTrip", "InvPrefixFree", "Inv
 
 
 def select(ctx, lines):
-    """quick: all non-product cases + a seeded sample of the size product that still covers every value of
-    every dimension; thorough: everything."""
+    """quick: the generator already thinned the size product (Pick, seeded); keep a seeded 60 of the zero-shaped cases."""
     if not ctx.quick:
         return lines
-    valid = [l for l in lines if '"tag":"valid"' in l]
-    rest = [l for l in lines if '"tag":"valid"' not in l]
-    shaped = [l for l in rest if '"tag":"shaped"' in l]
-    other = [l for l in rest if '"tag":"shaped"' not in l]
+    shaped = sorted(l for l in lines if '"tag":"shaped"' in l)
+    other = sorted(l for l in lines if '"tag":"shaped"' not in l)
     rng = vf.Rng(ctx.seed)
-    valid.sort()
-    shaped.sort()
-    pick = set()
-    while len(pick) < min(520, len(valid)):
-        pick.add(rng.n(len(valid)))
     spick = set()
     while len(spick) < min(60, len(shaped)):
         spick.add(rng.n(len(shaped)))
-    return [valid[i] for i in sorted(pick)] + [shaped[i] for i in sorted(spick)] + sorted(other)
+    return other + [shaped[i] for i in sorted(spick)]
 
 
 def run(ctx):
@@ -71,7 +63,7 @@ def run(ctx):
     ctx.cov["distinct_nontrivial"] = vf.distinct_count(
         [l for l in lines], key=lambda r: [r["blob"], r["arg"]])
     ctx.cov["rule"] = ("cases = TLC-enumerated blobs: product of |o|,|w| in {0,1,4095,4096,4097,65535,65536,65537} x z in {0,1,15,16,17} x s in {0,1,4095,4096,65536} "
-                       "x |a| in {0,1,4095,4096,4097} (quick: seeded sample of 520), zero-shaped data, truncation at every field boundary +-1, trailing bytes, "
+                       "x |a| in {0,1,4095,4096,4097} (quick: a seed-chosen fifteenth, about 530), zero-shaped data, truncation at every field boundary +-1, trailing bytes, "
                        "declared lengths +-1 / maximal, extra argument sizes, (thorough) 2^24-1 / z=65535 / |a|=Z_I; distinct = distinct (blob, argument) descriptors")
 
     def slim(r):
@@ -81,6 +73,7 @@ def run(ctx):
     # big records (thousands of page entries) go to their own shards
     big = [l for l in lines if len(l) > 200000]
     small = [l for l in lines if len(l) <= 200000]
-    shards = [small[i:i + 150] for i in range(0, len(small), 150)] + [[b] for b in big]
-    vf.validate_trace(ctx, "StdInit_Trace", shards, timeout=1500, heap="3g", par=6 if ctx.quick else 12,
+    per = 100 if ctx.quick else 250
+    shards = [small[i:i + per] for i in range(0, len(small), per)] + [[b] for b in big]
+    vf.validate_trace(ctx, "StdInit_Trace", shards, timeout=1500, heap="3g", par=8 if ctx.quick else 12,
                       what="SingleInitializer deviates from the Gray Paper memory map")
